@@ -1,5 +1,6 @@
 import DigModel.Proofs.Retry
 import DigModel.Proofs.History
+import DigModel.Proofs.Shape
 set_option linter.unusedSimpArgs false
 /-
   C02 — Singletons: a successful constructor or decorator never runs twice.
@@ -80,6 +81,37 @@ theorem C02_step_invariant (ctx : Ctx) (fns : List Fn) (st : St) (i : Nat) (op :
 example : VL 0 0 ({} : St) := ⟨⟨fun s k n h => by simp [St.scope, agetL, aget] at h; cases s <;> simp [agetL, aget] at h,
   fun s k d h => by cases s <;> simp [St.scope, aget] at h⟩, rfl, rfl⟩
 
+/-- executions never nest: in the events of any Invoke an enter event is directly followed by the exit event
+    of the same execution (dig builds every argument before it enters a function) -/
+theorem C02_no_nesting (ctx : Ctx) (fn : Fn) (st : St) (s : Nat) (info : Bool) (hlog : st.log = [])
+    (i : Nat) (w : Who) (f x : Nat) (args : List Val)
+    (h : (apiInvoke ctx fn st s info).2.ev[i]? = some (.enter w f x args)) :
+    ∃ r, (apiInvoke ctx fn st s info).2.ev[i + 1]? = some (.exit w f x r) := by
+  obtain ⟨l, t, he, hb, ht, _⟩ := apiInvoke_shape ctx fn st s info hlog
+  rw [he] at h ⊢
+  by_cases hlt : i < l.length
+  · rw [List.getElem?_append_left hlt] at h
+    obtain ⟨r, hnext⟩ := hb.exit_after_enter i w f x args h
+    refine ⟨r, ?_⟩
+    have hlt' : i + 1 < l.length := by
+      rcases Nat.lt_or_ge (i + 1) l.length with h' | h'
+      · exact h'
+      · rw [List.getElem?_eq_none h'] at hnext; cases hnext
+    rw [List.getElem?_append_left hlt']; exact hnext
+  · rw [List.getElem?_append_right (by omega)] at h
+    rcases ht with rfl | ⟨_, x', args', r, rfl⟩
+    · simp at h
+    · have : i - l.length = 0 ∨ i - l.length = 1 ∨ 2 ≤ i - l.length := by omega
+      rcases this with e | e | e
+      · rw [e] at h; simp at h
+        obtain ⟨rfl, rfl, rfl, _⟩ := h
+        refine ⟨r, ?_⟩
+        rw [List.getElem?_append_right (by omega)]
+        have : i + 1 - l.length = 1 := by omega
+        rw [this]; simp
+      · rw [e] at h; simp at h
+      · rw [List.getElem?_eq_none (by simpa using e)] at h; cases h
+
 #print axioms C02_once
 #print axioms C02_once_history
 #print axioms C02_step_invariant
@@ -87,4 +119,5 @@ example : VL 0 0 ({} : St) := ⟨⟨fun s k n h => by simp [St.scope, agetL, age
 #print axioms C02_cached
 #print axioms C02_noreentry
 #print axioms C02_deco_cached
+#print axioms C02_no_nesting
 end Dig.C02
